@@ -125,9 +125,9 @@ type signed struct {
 // build a tx with nIn inputs / nOut outputs; input idx spends an output of `kind`; sign it with the helper
 // midstate handed to a signing helper: nil where the helper's digest never reads it
 func helperMid(r *core.Rand, ht txscript.SigHashType, tx *wire.MsgTx, spent []*wire.TxOut) *txscript.TxSigHashes {
-	if (ht == 0x82 || ht == 0x83) && r.Bool() {
-		return nil
-	}
+	// always supplied: a nil midstate is outside the helpers' documented domain (it happens to work for
+	// ANYONECANPAY|NONE/SINGLE today; that is internal). The draw is kept so that case streams do not shift.
+	_ = (ht == 0x82 || ht == 0x83) && r.Bool()
 	return txscript.NewTxSigHashes(tx, mkFetcher(tx, spent))
 }
 
